@@ -6,7 +6,7 @@
 import NoirVerif.Model.BinaryStart
 namespace Noir.BinaryStart
 
-variable {α : Type}
+variable {α : Type} {ch : Nat → Bool}
 
 /-! ## Specification side -/
 
@@ -99,12 +99,12 @@ theorem prepare_leftDone {st : State α} {q} (h : LeftDone st q) : LeftDone (pre
 theorem recvRight_leftDone {st : State α} {q} (h : LeftDone st q) : LeftDone (recvRight st).1 q :=
   ⟨by simp [h.cached], by simp [h.term], by simp [h.queue]⟩
 
-theorem selectRecv_leftDone {st : State α} {q} (h : LeftDone st q) : LeftDone (selectRecv st).1 q := by
+theorem selectRecv_leftDone {st : State α} {q} (h : LeftDone st q) : LeftDone (selectRecv ch st).1 q := by
   unfold selectRecv
   rw [if_pos h.isEnded]
   exact recvRight_leftDone h
 
-theorem selectBody_leftDone {st : State α} {q} (h : LeftDone st q) : LeftDone (selectBody st).1 q := by
+theorem selectBody_leftDone {st : State α} {q} (h : LeftDone st q) : LeftDone (selectBody ch st).1 q := by
   unfold selectBody
   split
   · simp only [h.cached, if_true]
@@ -116,7 +116,7 @@ theorem selectBody_leftDone {st : State α} {q} (h : LeftDone st q) : LeftDone (
       · exact ⟨h.cached, h.term, h.queue⟩
       · exact selectRecv_leftDone h
 
-theorem select_leftDone {st : State α} {q} (h : LeftDone st q) : LeftDone (select st).1 q := by
+theorem select_leftDone {st : State α} {q} (h : LeftDone st q) : LeftDone (select ch st).1 q := by
   unfold select
   split
   · exact h
@@ -168,9 +168,9 @@ theorem recvRight_right_cacheFinished (st : State α) (h : st.right.cached = fal
     · simp [process_cacheFinished_of_not_cached _ _ _ _ _ h]
 
 /-- a predicate on the receiver part that `select` preserves is preserved by a whole pump -/
-theorem pump_preserves (P : State α → Prop) (hsel : ∀ st, P st → P (select st).1)
+theorem pump_preserves (P : State α → Prop) (hsel : ∀ st, P st → P (select ch st).1)
     (hupd : ∀ st s b, P st → P { st with start := s, alreadyTimedOut := b }) :
-    ∀ (fuel : Nat) (st : State α), P st → P (pump fuel st).1 := by
+    ∀ (fuel : Nat) (st : State α), P st → P (pump ch fuel st).1 := by
   intro fuel
   induction fuel with
   | zero => intro st h; exact h
@@ -190,12 +190,12 @@ theorem pump_preserves (P : State α → Prop) (hsel : ∀ st, P st → P (selec
         · exact hupd _ _ _ (hsel st h)
         · exact ih _ (hupd _ _ _ (hsel st h))
 
-theorem pump_leftDone {q} (fuel : Nat) (st : State α) (h : LeftDone st q) : LeftDone (pump fuel st).1 q :=
+theorem pump_leftDone {q} (fuel : Nat) (st : State α) (h : LeftDone st q) : LeftDone (pump ch fuel st).1 q :=
   pump_preserves (fun st => LeftDone st q) (fun _ h => select_leftDone h)
     (fun _ _ _ h => ⟨h.cached, h.term, h.queue⟩) fuel st h
 
 theorem runFrom_leftDone (ops : List (Op α)) : ∀ (st : State α) (i : Nat) (q : List (Batch α)),
-    LeftDone st q → ∃ added, LeftDone (runFrom st i ops).1 (q ++ added) := by
+    LeftDone st q → ∃ added, LeftDone (runFrom ch st i ops).1 (q ++ added) := by
   induction ops with
   | nil => intro st i q h; exact ⟨[], by simpa [runFrom] using h⟩
   | cons op ops ih =>
@@ -212,18 +212,18 @@ theorem runFrom_leftDone (ops : List (Op α)) : ∀ (st : State α) (i : Nat) (q
         exact ih (enqueue st false r es) (i + 1) q ⟨h.cached, h.term, by simp [enqueue, h.queue]⟩
     | pump =>
       simp only [runFrom]
-      have hp := pump_leftDone (pumpFuel st) st h
+      have hp := pump_leftDone (ch := ch) (pumpFuel st) st h
       split
-      · obtain ⟨a, ha⟩ := ih (pump (pumpFuel st) st).1 (i + 1) q hp
+      · obtain ⟨a, ha⟩ := ih (pump ch (pumpFuel st) st).1 (i + 1) q hp
         exact ⟨a, ha⟩
       · exact ⟨[], by simpa using hp⟩
 
 /-! ## Replay -/
 
 /-- `k` consecutive calls of `select` (the receiver never looks at the `Start` part of the state) -/
-def selectIter : Nat → State α → State α × List (Sel α)
+def selectIter (ch : Nat → Bool) : Nat → State α → State α × List (Sel α)
   | 0, st => (st, [])
-  | k + 1, st => ((selectIter k (select st).1).1, (select st).2 :: (selectIter k (select st).1).2)
+  | k + 1, st => ((selectIter ch k (select ch st).1).1, (select ch st).2 :: (selectIter ch k (select ch st).1).2)
 
 /-- the receiver is in the middle of a replay of the left cache -/
 structure ReplayingL (st : State α) : Prop where
@@ -237,7 +237,7 @@ structure ReplayingL (st : State α) : Prop where
   untouched : st.right.missingTerm = st.right.instances
 
 theorem select_replayingL {st : State α} (h : ReplayingL st) :
-    select st = ({ st with left := st.left.nextCached.1 },
+    select ch st = ({ st with left := st.left.nextCached.1 },
                  .replay true (st.left.cache.getD st.left.cachePointer (0, []))) := by
   have hcf : st.left.cacheFinished = false := by
     simp [Side.cacheFinished]; exact h.more
@@ -261,18 +261,18 @@ theorem nextCached_missingFar_last (s : Side α) (h : s.cache.length ≤ s.cache
 /-- **A replay hands out the whole rest of the cache, in order, and touches no channel.** -/
 theorem replayL_whole_cache : ∀ (k : Nat) (st : State α), ReplayingL st →
     k = st.left.cache.length - st.left.cachePointer →
-    (selectIter k st).2 = (st.left.cache.drop st.left.cachePointer).map (Sel.replay true)
-    ∧ (selectIter k st).1.qL = st.qL ∧ (selectIter k st).1.qR = st.qR
-    ∧ (selectIter k st).1.left.cache = st.left.cache
-    ∧ (selectIter k st).1.left.cachePointer = st.left.cache.length
-    ∧ (selectIter k st).1.left.missingFar = 0
-    ∧ (selectIter k st).1.right = st.right := by
+    (selectIter ch k st).2 = (st.left.cache.drop st.left.cachePointer).map (Sel.replay true)
+    ∧ (selectIter ch k st).1.qL = st.qL ∧ (selectIter ch k st).1.qR = st.qR
+    ∧ (selectIter ch k st).1.left.cache = st.left.cache
+    ∧ (selectIter ch k st).1.left.cachePointer = st.left.cache.length
+    ∧ (selectIter ch k st).1.left.missingFar = 0
+    ∧ (selectIter ch k st).1.right = st.right := by
   intro k
   induction k with
   | zero => intro st h hk; have := h.more; omega
   | succ k ih =>
     intro st h hk
-    have hsel := select_replayingL h
+    have hsel := select_replayingL (ch := ch) h
     have hm := h.more
     have hdrop : st.left.cache.drop st.left.cachePointer
         = st.left.cache.getD st.left.cachePointer (0, []) :: st.left.cache.drop (st.left.cachePointer + 1) := by
@@ -427,7 +427,7 @@ theorem recvRight_conserves (st : State α) (hl : st.left.cached = false) (hr : 
       · simp [selElems, Sel.batch?, process_out, hr, hp.1, pendR, hq, inPayloads_append]
 
 theorem selectRecv_conserves (st : State α) (hl : st.left.cached = false) (hr : st.right.cached = false) :
-    Conserves st (selectRecv st).1 (selectRecv st).2 := by
+    Conserves st (selectRecv ch st).1 (selectRecv ch st).2 := by
   unfold selectRecv
   split
   · exact recvRight_conserves st hl hr
@@ -437,14 +437,17 @@ theorem selectRecv_conserves (st : State α) (hl : st.left.cached = false) (hr :
       · split
         · exact recvRight_conserves st hl hr
         · exact recvLeft_conserves st hl hr
-        · have := recvLeft_conserves { st with ambiguous := true } hl hr
-          exact ⟨this.lc, this.rc, this.left, this.right⟩
+        · split
+          · have := recvLeft_conserves { st with ambig := st.ambig + 1 } hl hr
+            exact ⟨this.lc, this.rc, this.left, this.right⟩
+          · have := recvRight_conserves { st with ambig := st.ambig + 1 } hl hr
+            exact ⟨this.lc, this.rc, this.left, this.right⟩
       · exact recvRight_conserves st hl hr
       · exact recvLeft_conserves st hl hr
       · exact ⟨hl, hr, by simp [selElems, Sel.batch?, payloads], by simp [selElems, Sel.batch?, payloads]⟩
 
 theorem select_conserves (st : State α) (hl : st.left.cached = false) (hr : st.right.cached = false) :
-    Conserves st (select st).1 (select st).2 := by
+    Conserves st (select ch st).1 (select ch st).2 := by
   have hpl : (prepare st).left.cached = false := by unfold prepare; split <;> simp [hl]
   have hpr : (prepare st).right.cached = false := by unfold prepare; split <;> simp [hr]
   have hql : pendL (prepare st) = pendL st := by unfold prepare pendL; split <;> rfl
@@ -455,10 +458,10 @@ theorem select_conserves (st : State α) (hl : st.left.cached = false) (hr : st.
     simp [numTerminates, hl, hr] at h
   · unfold selectBody
     simp only [hpl, hpr, Bool.or_self, Bool.and_false, Bool.false_and, if_false, Bool.false_eq_true]
-    have := selectRecv_conserves (prepare st) hpl hpr
+    have := selectRecv_conserves (ch := ch) (prepare st) hpl hpr
     exact ⟨this.lc, this.rc, by rw [this.left, hql], by rw [this.right, hqr]⟩
 
-theorem selectRecv_start (st : State α) : (selectRecv st).1.start = st.start := by
+theorem selectRecv_start (st : State α) : (selectRecv ch st).1.start = st.start := by
   unfold selectRecv
   split
   · simp
@@ -470,7 +473,7 @@ theorem selectRecv_start (st : State α) : (selectRecv st).1.start = st.start :=
       · simp
       · rfl
 
-theorem select_start (st : State α) : (select st).1.start = st.start := by
+theorem select_start (st : State α) : (select ch st).1.start = st.start := by
   have hp : (prepare st).start = st.start := by unfold prepare; split <;> rfl
   unfold select
   split
@@ -503,15 +506,15 @@ theorem step_timeout {β : Type} (s : Noir.Start.State) (h : s.missingTerm ≠ 0
   | some p => simp
 
 theorem pump_conserves : ∀ (fuel : Nat) (st : State α), st.left.cached = false → st.right.cached = false →
-    (pump fuel st).2.2.2 ≠ .done →
-    payloads true (pump fuel st).2.1 ++ pendL (pump fuel st).1 = pendL st
-    ∧ payloads false (pump fuel st).2.1 ++ pendR (pump fuel st).1 = pendR st := by
+    (pump ch fuel st).2.2.2 ≠ .done →
+    payloads true (pump ch fuel st).2.1 ++ pendL (pump ch fuel st).1 = pendL st
+    ∧ payloads false (pump ch fuel st).2.1 ++ pendR (pump ch fuel st).1 = pendR st := by
   intro fuel
   induction fuel with
   | zero => intro st _ _ _; simp [pump, payloads]
   | succ n ih =>
     intro st hl hr hnd
-    have hc := select_conserves st hl hr
+    have hc := select_conserves (ch := ch) st hl hr
     unfold pump at hnd ⊢
     split at hnd
     · exact absurd rfl hnd
@@ -520,30 +523,30 @@ theorem pump_conserves : ∀ (fuel : Nat) (st : State α), st.left.cached = fals
       simp only at hnd ⊢
       split at hnd
       · rename_i hb
-        have hse : selElems (select st).2 = [] := by simp [selElems, hb]
+        have hse : selElems (select ch st).2 = [] := by simp [selElems, hb]
         have hL := hc.left; have hR := hc.right
         rw [hse] at hL hR
         split
         · exact ⟨by simpa [payloads] using hL, by simpa [payloads] using hR⟩
         · split
           · exact ⟨by simpa [payloads, pendL] using hL, by simpa [payloads, pendR] using hR⟩
-          · have hlive' : (select st).1.start.missingTerm ≠ 0 := by rw [select_start]; exact hlive
-            obtain ⟨_, _, _, ht⟩ := step_timeout (β := Bin α) (select st).1.start hlive'
-            have hpay : ∀ l, payloads l (Noir.Start.step (select st).1.start
+          · have hlive' : (select ch st).1.start.missingTerm ≠ 0 := by rw [select_start]; exact hlive
+            obtain ⟨_, _, _, ht⟩ := step_timeout (β := Bin α) (select ch st).1.start hlive'
+            have hpay : ∀ l, payloads l (Noir.Start.step (select ch st).1.start
                 (Noir.Start.Arrival.timeout : Noir.Start.Arrival (Bin α))).2.dropLast = [] := by
               intro l
               rcases ht with ⟨_, _, e⟩ | ⟨p, _, _, e⟩ <;> rw [e] <;> simp [payloads]
             simp only [hpay, pendL, pendR, List.nil_append]
             exact ⟨by simpa [payloads, pendL] using hL, by simpa [payloads, pendR] using hR⟩
       · rename_i b hb
-        have hse : selElems (select st).2 = b.2 := by simp [selElems, hb]
+        have hse : selElems (select ch st).2 = b.2 := by simp [selElems, hb]
         split at hnd
         · exact absurd rfl hnd
         · rename_i hfed
           rw [if_neg hfed]
           simp only at hnd ⊢
-          have hi := ih ({ (select st).1 with
-              start := (feed (select st).1.start b.1 b.2).1, alreadyTimedOut := false }) hc.lc hc.rc hnd
+          have hi := ih ({ (select ch st).1 with
+              start := (feed (select ch st).1.start b.1 b.2).1, alreadyTimedOut := false }) hc.lc hc.rc hnd
           have hL := hc.left; have hR := hc.right
           rw [hse] at hL hR
           rw [payloads_append, payloads_append, feed_payloads true _ _ _ hfed, feed_payloads false _ _ _ hfed]
@@ -558,15 +561,15 @@ def sentPayloads (left : Bool) : List (Op α) → List α
   | .pump :: ops => sentPayloads left ops
 
 theorem pump_nocache (fuel : Nat) (st : State α) (hl : st.left.cached = false) (hr : st.right.cached = false) :
-    (pump fuel st).1.left.cached = false ∧ (pump fuel st).1.right.cached = false :=
+    (pump ch fuel st).1.left.cached = false ∧ (pump ch fuel st).1.right.cached = false :=
   pump_preserves (fun st => st.left.cached = false ∧ st.right.cached = false)
     (fun st h => ⟨(select_conserves st h.1 h.2).lc, (select_conserves st h.1 h.2).rc⟩)
     (fun _ _ _ h => h) fuel st ⟨hl, hr⟩
 
 theorem runFrom_conserves (ops : List (Op α)) : ∀ (st : State α) (i : Nat),
-    st.left.cached = false → st.right.cached = false → (runFrom st i ops).2.2.1 = .idle →
-    payloads true ((runFrom st i ops).2.1.map (·.2)) ++ pendL (runFrom st i ops).1 = pendL st ++ sentPayloads true ops
-    ∧ payloads false ((runFrom st i ops).2.1.map (·.2)) ++ pendR (runFrom st i ops).1 = pendR st ++ sentPayloads false ops := by
+    st.left.cached = false → st.right.cached = false → (runFrom ch st i ops).2.2.1 = .idle →
+    payloads true ((runFrom ch st i ops).2.1.map (·.2)) ++ pendL (runFrom ch st i ops).1 = pendL st ++ sentPayloads true ops
+    ∧ payloads false ((runFrom ch st i ops).2.1.map (·.2)) ++ pendR (runFrom ch st i ops).1 = pendR st ++ sentPayloads false ops := by
   induction ops with
   | nil => intro st i _ _ _; simp [runFrom, payloads, sentPayloads]
   | cons op ops ih =>
@@ -580,14 +583,14 @@ theorem runFrom_conserves (ops : List (Op α)) : ∀ (st : State α) (i : Nat),
       · simpa [enqueue, pendL, pendR, sentPayloads, inPayloads_append] using this
     | pump =>
       simp only [runFrom] at hidle ⊢
-      have hnc := pump_nocache (pumpFuel st) st hl hr
+      have hnc := pump_nocache (ch := ch) (pumpFuel st) st hl hr
       split at hidle
       · rename_i hoc
         have hp := pump_conserves (pumpFuel st) st hl hr (by rw [hoc]; simp)
-        have hi := ih (pump (pumpFuel st) st).1 (i + 1) hnc.1 hnc.2 hidle
+        have hi := ih (pump ch (pumpFuel st) st).1 (i + 1) hnc.1 hnc.2 hidle
         simp only [sentPayloads]
         simp only [List.map_append, List.map_map, payloads_append]
-        have hm : List.map ((fun x => x.2) ∘ fun e => (i, e)) (pump (pumpFuel st) st).2.1 = (pump (pumpFuel st) st).2.1 := by
+        have hm : List.map ((fun x => x.2) ∘ fun e => (i, e)) (pump ch (pumpFuel st) st).2.1 = (pump ch (pumpFuel st) st).2.1 := by
           simp [Function.comp_def]
         rw [hm]
         refine ⟨?_, ?_⟩
@@ -597,7 +600,7 @@ theorem runFrom_conserves (ops : List (Op α)) : ∀ (st : State α) (i : Nat),
         exact absurd hidle (by simpa using hne)
 
 theorem select_leftDone_cache {st : State α} {q} (h : LeftDone st q) :
-    (select st).1.left.cache = st.left.cache := by
+    (select ch st).1.left.cache = st.left.cache := by
   have hp := prepare_leftDone h
   have hpc : (prepare st).left.cache = st.left.cache := by unfold prepare; split <;> simp
   unfold select
@@ -614,7 +617,7 @@ theorem select_leftDone_cache {st : State α} {q} (h : LeftDone st q) :
         · unfold selectRecv; rw [if_pos hp.isEnded]; simp
 
 theorem pump_leftDone_cache {q} (fuel : Nat) (st : State α) (h : LeftDone st q) :
-    (pump fuel st).1.left.cache = st.left.cache :=
+    (pump ch fuel st).1.left.cache = st.left.cache :=
   (pump_preserves (fun s => LeftDone s q ∧ s.left.cache = st.left.cache)
     (fun s hs => ⟨select_leftDone hs.1, by rw [select_leftDone_cache hs.1]; exact hs.2⟩)
     (fun _ _ _ hs => ⟨⟨hs.1.cached, hs.1.term, hs.1.queue⟩, hs.2⟩) fuel st ⟨h, rfl⟩).2
@@ -663,8 +666,8 @@ theorem feed_term {β : Type} (r : Nat) (es : List (Elem β)) : ∀ (s : Noir.St
 
 /-- `Terminate` is the last thing a pump returns, at most once, and exactly when it ends `done` -/
 theorem pump_term : ∀ (fuel : Nat) (st : State α), st.start.missingTerm ≠ 0 →
-    ((pump fuel st).2.2.2 ≠ .done ∧ (pump fuel st).1.start.missingTerm ≠ 0 ∧ Elem.term ∉ (pump fuel st).2.1)
-    ∨ ((pump fuel st).2.2.2 = .done ∧ ∃ pre, (pump fuel st).2.1 = pre ++ [Elem.term] ∧ Elem.term ∉ pre) := by
+    ((pump ch fuel st).2.2.2 ≠ .done ∧ (pump ch fuel st).1.start.missingTerm ≠ 0 ∧ Elem.term ∉ (pump ch fuel st).2.1)
+    ∨ ((pump ch fuel st).2.2.2 = .done ∧ ∃ pre, (pump ch fuel st).2.1 = pre ++ [Elem.term] ∧ Elem.term ∉ pre) := by
   intro fuel
   induction fuel with
   | zero => intro st h; left; simp [pump, h]
@@ -679,19 +682,19 @@ theorem pump_term : ∀ (fuel : Nat) (st : State α), st.start.missingTerm ≠ 0
       · simp [select_start, h]
       · split
         · simp [select_start, h]
-        · have hlive' : (select st).1.start.missingTerm ≠ 0 := by rw [select_start]; exact h
-          obtain ⟨_, _, t3, ht⟩ := step_timeout (β := Bin α) (select st).1.start hlive'
+        · have hlive' : (select ch st).1.start.missingTerm ≠ 0 := by rw [select_start]; exact h
+          obtain ⟨_, _, t3, ht⟩ := step_timeout (β := Bin α) (select ch st).1.start hlive'
           refine ⟨by simp, by simp only; rw [t3]; exact hlive', ?_⟩
           rcases ht with ⟨_, _, e⟩ | ⟨p, _, _, e⟩ <;> simp only [e] <;> simp
     · rename_i b hb
-      have hs : (select st).1.start.missingTerm ≠ 0 := by rw [select_start]; exact h
+      have hs : (select ch st).1.start.missingTerm ≠ 0 := by rw [select_start]; exact h
       rcases feed_term b.1 b.2 _ hs with ⟨f1, f2⟩ | ⟨f1, pre, f2, f3⟩
       · rw [if_neg f1]
         simp only
-        rcases ih ({ (select st).1 with start := (feed (select st).1.start b.1 b.2).1, alreadyTimedOut := false }) f1
+        rcases ih ({ (select ch st).1 with start := (feed (select ch st).1.start b.1 b.2).1, alreadyTimedOut := false }) f1
           with ⟨i1, i2, i3⟩ | ⟨i1, pre, i2, i3⟩
         · left; exact ⟨i1, i2, by simp [f2, i3]⟩
-        · right; exact ⟨i1, (feed (select st).1.start b.1 b.2).2 ++ pre, by rw [i2, List.append_assoc], by simp [f2, i3]⟩
+        · right; exact ⟨i1, (feed (select ch st).1.start b.1 b.2).2 ++ pre, by rw [i2, List.append_assoc], by simp [f2, i3]⟩
       · rw [if_pos f1]
         right; exact ⟨rfl, pre, f2, f3⟩
 
@@ -699,9 +702,9 @@ theorem map_tag {β : Type} (i : Nat) (l : List β) : (l.map (fun e => (i, e))).
   simp [Function.comp_def]
 
 theorem runFrom_term (ops : List (Op α)) : ∀ (st : State α) (i : Nat), st.start.missingTerm ≠ 0 →
-    ((runFrom st i ops).2.2.1 ≠ .done ∧ Elem.term ∉ (runFrom st i ops).2.1.map (·.2))
-    ∨ ((runFrom st i ops).2.2.1 = .done
-        ∧ ∃ pre, (runFrom st i ops).2.1.map (·.2) = pre ++ [Elem.term] ∧ Elem.term ∉ pre) := by
+    ((runFrom ch st i ops).2.2.1 ≠ .done ∧ Elem.term ∉ (runFrom ch st i ops).2.1.map (·.2))
+    ∨ ((runFrom ch st i ops).2.2.1 = .done
+        ∧ ∃ pre, (runFrom ch st i ops).2.1.map (·.2) = pre ++ [Elem.term] ∧ Elem.term ∉ pre) := by
   induction ops with
   | nil => intro st i _; left; simp [runFrom]
   | cons op ops ih =>
@@ -712,18 +715,18 @@ theorem runFrom_term (ops : List (Op α)) : ∀ (st : State α) (i : Nat), st.st
       exact ih (enqueue st l r es) (i + 1) (by cases l <;> simpa [enqueue] using h)
     | pump =>
       simp only [runFrom]
-      have hp := pump_term (pumpFuel st) st h
+      have hp := pump_term (ch := ch) (pumpFuel st) st h
       split
       · rename_i hoc
         rcases hp with ⟨_, p2, p3⟩ | ⟨p1, _⟩
-        · rcases ih (pump (pumpFuel st) st).1 (i + 1) p2 with ⟨i1, i2⟩ | ⟨i1, pre, i2, i3⟩
+        · rcases ih (pump ch (pumpFuel st) st).1 (i + 1) p2 with ⟨i1, i2⟩ | ⟨i1, pre, i2, i3⟩
           · left
             refine ⟨i1, ?_⟩
             simp only [List.map_append, map_tag]
             simp only [List.mem_append, not_or]
             exact ⟨p3, i2⟩
           · right
-            refine ⟨i1, (pump (pumpFuel st) st).2.1 ++ pre, ?_, ?_⟩
+            refine ⟨i1, (pump ch (pumpFuel st) st).2.1 ++ pre, ?_, ?_⟩
             · simp only [List.map_append, map_tag, i2, List.append_assoc]
             · simp only [List.mem_append, not_or]; exact ⟨p3, i3⟩
         · rw [hoc] at p1; cases p1
@@ -2170,13 +2173,13 @@ theorem recvRight_ok {nL nR : Nat} {futL futR : List (Batch α)} {S : Noir.Start
     {acc : List (Elem (Bin α))} (st : State α) (fm' : Bool)
     (hblock : InvC nL nR futL futR st.left st.right st.firstMessage st.qL st.qR S acc)
     (hrecv : ∀ r es q, st.qR = (r, es) :: q →
-      (st.right.process Bin.right Bin.rightEnd (st.left.instances + r) es).2.2 = false
-      ∧ InvC nL nR futL futR st.left (st.right.process Bin.right Bin.rightEnd (st.left.instances + r) es).1 fm'
+      (st.right.process Bin.right Bin.rightEnd (st.offR + r) es).2.2 = false
+      ∧ InvC nL nR futL futR st.left (st.right.process Bin.right Bin.rightEnd (st.offR + r) es).1 fm'
           st.qL q
-          (feed S (st.right.process Bin.right Bin.rightEnd (st.left.instances + r) es).2.1.1
-                  (st.right.process Bin.right Bin.rightEnd (st.left.instances + r) es).2.1.2).1
-          (acc ++ (feed S (st.right.process Bin.right Bin.rightEnd (st.left.instances + r) es).2.1.1
-                  (st.right.process Bin.right Bin.rightEnd (st.left.instances + r) es).2.1.2).2)) :
+          (feed S (st.right.process Bin.right Bin.rightEnd (st.offR + r) es).2.1.1
+                  (st.right.process Bin.right Bin.rightEnd (st.offR + r) es).2.1.2).1
+          (acc ++ (feed S (st.right.process Bin.right Bin.rightEnd (st.offR + r) es).2.1.1
+                  (st.right.process Bin.right Bin.rightEnd (st.offR + r) es).2.1.2).2)) :
     StepOk nL nR futL futR S acc
       ({ (recvRight st).1 with firstMessage := if (recvRight st).2.isBlock then st.firstMessage else fm' },
        (recvRight st).2) := by
@@ -2195,12 +2198,12 @@ theorem recvLeft_ok {nL nR : Nat} {futL futR : List (Batch α)} {S : Noir.Start.
     {acc : List (Elem (Bin α))} (st : State α)
     (hblock : InvC nL nR futL futR st.left st.right st.firstMessage st.qL st.qR S acc)
     (hrecv : ∀ r es q, st.qL = (r, es) :: q →
-      (st.left.process Bin.left Bin.leftEnd r es).2.2 = false
-      ∧ InvC nL nR futL futR (st.left.process Bin.left Bin.leftEnd r es).1 st.right st.firstMessage q st.qR
-          (feed S (st.left.process Bin.left Bin.leftEnd r es).2.1.1
-                  (st.left.process Bin.left Bin.leftEnd r es).2.1.2).1
-          (acc ++ (feed S (st.left.process Bin.left Bin.leftEnd r es).2.1.1
-                  (st.left.process Bin.left Bin.leftEnd r es).2.1.2).2)) :
+      (st.left.process Bin.left Bin.leftEnd (st.offL + r) es).2.2 = false
+      ∧ InvC nL nR futL futR (st.left.process Bin.left Bin.leftEnd (st.offL + r) es).1 st.right st.firstMessage q st.qR
+          (feed S (st.left.process Bin.left Bin.leftEnd (st.offL + r) es).2.1.1
+                  (st.left.process Bin.left Bin.leftEnd (st.offL + r) es).2.1.2).1
+          (acc ++ (feed S (st.left.process Bin.left Bin.leftEnd (st.offL + r) es).2.1.1
+                  (st.left.process Bin.left Bin.leftEnd (st.offL + r) es).2.1.2).2)) :
     StepOk nL nR futL futR S acc (recvLeft st) := by
   unfold recvLeft
   split
@@ -2217,13 +2220,13 @@ theorem recvRight_ok' {nL nR : Nat} {futL futR : List (Batch α)} {S : Noir.Star
     {acc : List (Elem (Bin α))} (st : State α)
     (hblock : InvC nL nR futL futR st.left st.right st.firstMessage st.qL st.qR S acc)
     (hrecv : ∀ r es q, st.qR = (r, es) :: q →
-      (st.right.process Bin.right Bin.rightEnd (st.left.instances + r) es).2.2 = false
-      ∧ InvC nL nR futL futR st.left (st.right.process Bin.right Bin.rightEnd (st.left.instances + r) es).1
+      (st.right.process Bin.right Bin.rightEnd (st.offR + r) es).2.2 = false
+      ∧ InvC nL nR futL futR st.left (st.right.process Bin.right Bin.rightEnd (st.offR + r) es).1
           st.firstMessage st.qL q
-          (feed S (st.right.process Bin.right Bin.rightEnd (st.left.instances + r) es).2.1.1
-                  (st.right.process Bin.right Bin.rightEnd (st.left.instances + r) es).2.1.2).1
-          (acc ++ (feed S (st.right.process Bin.right Bin.rightEnd (st.left.instances + r) es).2.1.1
-                  (st.right.process Bin.right Bin.rightEnd (st.left.instances + r) es).2.1.2).2)) :
+          (feed S (st.right.process Bin.right Bin.rightEnd (st.offR + r) es).2.1.1
+                  (st.right.process Bin.right Bin.rightEnd (st.offR + r) es).2.1.2).1
+          (acc ++ (feed S (st.right.process Bin.right Bin.rightEnd (st.offR + r) es).2.1.1
+                  (st.right.process Bin.right Bin.rightEnd (st.offR + r) es).2.1.2).2)) :
     StepOk nL nR futL futR S acc (recvRight st) := by
   unfold recvRight
   split
@@ -2240,7 +2243,7 @@ theorem recvRight_ok' {nL nR : Nat} {futL futR : List (Batch α)} {S : Noir.Star
 theorem body_wait {nL nR : Nat} {futL futR : List (Batch α)} {acc : List (Elem (Bin α))} (st : State α)
     (c : Common nL nR st.left st.right st.start)
     (h : WaitRel nL nR futR st.left st.right st.firstMessage st.qR st.start acc) :
-    StepOk nL nR futL futR st.start acc (selectBody st) := by
+    StepOk nL nR futL futR st.start acc (selectBody ch st) := by
   unfold selectBody
   have hfm : st.firstMessage = true := h.fm
   simp only [hfm, c.lc, Bool.true_or, Bool.and_self, if_true]
@@ -2258,7 +2261,7 @@ theorem body_wait {nL nR : Nat} {futL futR : List (Batch α)} {acc : List (Elem 
 theorem iter_wait {nL nR : Nat} {futL futR : List (Batch α)} {acc : List (Elem (Bin α))} (st : State α)
     (c : Common nL nR st.left st.right st.start)
     (h : WaitRel nL nR futR st.left st.right st.firstMessage st.qR st.start acc) :
-    StepOk nL nR futL futR st.start acc (select st) := by
+    StepOk nL nR futL futR st.start acc (select ch st) := by
   have hnR := c.nRpos
   have h1 : (st.left.isTerminated && st.right.isTerminated && decide (numTerminates st > 0)) = false := by
     simp [Side.isTerminated, h.rt]; omega
@@ -2273,7 +2276,7 @@ theorem iter_wait {nL nR : Nat} {futL futR : List (Batch α)} {acc : List (Elem 
 theorem iter_term {nL nR : Nat} {futL futR : List (Batch α)} {acc : List (Elem (Bin α))} {t : Nat} (st : State α)
     (c : Common nL nR st.left st.right st.start)
     (h : TermRel nL nR futR st.left st.right st.firstMessage st.qR st.start acc t) :
-    StepOk nL nR futL futR st.start acc (select st) := by
+    StepOk nL nR futL futR st.start acc (select ch st) := by
   have hnR := c.nRpos
   have hnL := c.nLpos
   by_cases ht : t = nR
@@ -2313,7 +2316,7 @@ theorem iter_term {nL nR : Nat} {futL futR : List (Batch α)} {acc : List (Elem 
 theorem iter_play {nL nR : Nat} {futL futR : List (Batch α)} {acc : List (Elem (Bin α))} {p fR : Nat} (st : State α)
     (c : Common nL nR st.left st.right st.start)
     (h : PlayRel nL nR futR st.left st.right st.firstMessage st.qR st.start acc p fR) :
-    StepOk nL nR futL futR st.start acc (select st) := by
+    StepOk nL nR futL futR st.start acc (select ch st) := by
   have hnR := c.nRpos
   have hnL := c.nLpos
   have h1 : (st.left.isTerminated && st.right.isTerminated && decide (numTerminates st > 0)) = false := by
@@ -2375,7 +2378,7 @@ theorem iter_play {nL nR : Nat} {futL futR : List (Batch α)} {acc : List (Elem 
 theorem iter_r1 {nL nR : Nat} {futL futR : List (Batch α)} {acc : List (Elem (Bin α))} {fL tL fR : Nat} (st : State α)
     (c : Common nL nR st.left st.right st.start)
     (h : R1Rel nL nR futL futR st.left st.right st.firstMessage st.qL st.qR st.start acc fL tL fR) :
-    StepOk nL nR futL futR st.start acc (select st) := by
+    StepOk nL nR futL futR st.start acc (select ch st) := by
   have hnR := c.nRpos
   have hnL := c.nLpos
   have htl : tL ≤ nL := by have := h.tf; have := h.fn; omega
@@ -2397,24 +2400,24 @@ theorem iter_r1 {nL nR : Nat} {futL futR : List (Batch α)} {acc : List (Elem (B
   have hrcf : st.right.cacheFinished = true := by simp [Side.cacheFinished, c.rcache, c.rptr]
   have hfm : st.firstMessage = false := h.fm
   have hleft : ∀ r es q, st.qL = (r, es) :: q →
-      (st.left.process Bin.left Bin.leftEnd r es).2.2 = false
-      ∧ InvC nL nR futL futR (st.left.process Bin.left Bin.leftEnd r es).1 st.right st.firstMessage q st.qR
-          (feed st.start (st.left.process Bin.left Bin.leftEnd r es).2.1.1
-                  (st.left.process Bin.left Bin.leftEnd r es).2.1.2).1
-          (acc ++ (feed st.start (st.left.process Bin.left Bin.leftEnd r es).2.1.1
-                  (st.left.process Bin.left Bin.leftEnd r es).2.1.2).2) := by
+      (st.left.process Bin.left Bin.leftEnd (st.offL + r) es).2.2 = false
+      ∧ InvC nL nR futL futR (st.left.process Bin.left Bin.leftEnd (st.offL + r) es).1 st.right st.firstMessage q st.qR
+          (feed st.start (st.left.process Bin.left Bin.leftEnd (st.offL + r) es).2.1.1
+                  (st.left.process Bin.left Bin.leftEnd (st.offL + r) es).2.1.2).1
+          (acc ++ (feed st.start (st.left.process Bin.left Bin.leftEnd (st.offL + r) es).2.1.1
+                  (st.left.process Bin.left Bin.leftEnd (st.offL + r) es).2.1.2).2) := by
     intro r es q hq
     have h' : R1Rel nL nR futL futR st.left st.right st.firstMessage ((r, es) :: q) st.qR st.start acc fL tL fR := by
       rw [← hq]; exact h
     exact r1_left c h'
   have hright : fR < nR → ∀ r es q, st.qR = (r, es) :: q →
-      (st.right.process Bin.right Bin.rightEnd (st.left.instances + r) es).2.2 = false
-      ∧ InvC nL nR futL futR st.left (st.right.process Bin.right Bin.rightEnd (st.left.instances + r) es).1
+      (st.right.process Bin.right Bin.rightEnd (st.offR + r) es).2.2 = false
+      ∧ InvC nL nR futL futR st.left (st.right.process Bin.right Bin.rightEnd (st.offR + r) es).1
           st.firstMessage st.qL q
-          (feed st.start (st.right.process Bin.right Bin.rightEnd (st.left.instances + r) es).2.1.1
-                  (st.right.process Bin.right Bin.rightEnd (st.left.instances + r) es).2.1.2).1
-          (acc ++ (feed st.start (st.right.process Bin.right Bin.rightEnd (st.left.instances + r) es).2.1.1
-                  (st.right.process Bin.right Bin.rightEnd (st.left.instances + r) es).2.1.2).2) := by
+          (feed st.start (st.right.process Bin.right Bin.rightEnd (st.offR + r) es).2.1.1
+                  (st.right.process Bin.right Bin.rightEnd (st.offR + r) es).2.1.2).1
+          (acc ++ (feed st.start (st.right.process Bin.right Bin.rightEnd (st.offR + r) es).2.1.1
+                  (st.right.process Bin.right Bin.rightEnd (st.offR + r) es).2.1.2).2) := by
     intro hfr r es q hq
     have h' : R1Rel nL nR futL futR st.left st.right st.firstMessage st.qL ((r, es) :: q) st.start acc fL tL fR := by
       rw [← hq]; exact h
@@ -2462,12 +2465,14 @@ theorem iter_r1 {nL nR : Nat} {futL futR : List (Batch α)} {acc : List (Elem (B
         split
         · exact recvRight_ok' st (InvC.r1 fL tL fR c h) (hright (by omega))
         · exact recvLeft_ok st (InvC.r1 fL tL fR c h) hleft
-        · exact recvLeft_ok ({ st with ambiguous := true }) (InvC.r1 fL tL fR c h) hleft
+        · split
+          · exact recvLeft_ok ({ st with ambig := st.ambig + 1 }) (InvC.r1 fL tL fR c h) hleft
+          · exact recvRight_ok' ({ st with ambig := st.ambig + 1 }) (InvC.r1 fL tL fR c h) (hright (by omega))
 
 /-- **one iteration of the pull loop preserves the invariant** -/
 theorem inv_select {nL nR : Nat} {futL futR : List (Batch α)} {acc : List (Elem (Bin α))} (st : State α)
     (h : Inv nL nR futL futR st acc) (hlive : st.start.missingTerm ≠ 0) :
-    StepOk nL nR futL futR st.start acc (select st) := by
+    StepOk nL nR futL futR st.start acc (select ch st) := by
   cases h with
   | r1 fL tL fR c h => exact iter_r1 st c h
   | wait c h => exact iter_wait st c h
@@ -2517,7 +2522,7 @@ theorem inv_timeout {nL nR : Nat} {futL futR : List (Batch α)} {L R : Side α} 
 
 theorem pump_inv {nL nR : Nat} {futL futR : List (Batch α)} : ∀ (fuel : Nat) (st : State α)
     (acc : List (Elem (Bin α))), Inv nL nR futL futR st acc →
-    Inv nL nR futL futR (pump fuel st).1 (acc ++ (pump fuel st).2.1) ∧ (pump fuel st).2.2.2 ≠ .panic := by
+    Inv nL nR futL futR (pump ch fuel st).1 (acc ++ (pump ch fuel st).2.1) ∧ (pump ch fuel st).2.2.2 ≠ .panic := by
   intro fuel
   induction fuel with
   | zero => intro st acc h; simp [pump]; exact h
@@ -2528,7 +2533,7 @@ theorem pump_inv {nL nR : Nat} {futL futR : List (Batch α)} : ∀ (fuel : Nat) 
     · simp; exact h
     · rename_i hlive
       obtain ⟨s1, s2, s3⟩ := inv_select st h hlive
-      have hst := select_start st
+      have hst := select_start (ch := ch) st
       simp only
       split
       · rename_i hb
@@ -2545,7 +2550,7 @@ theorem pump_inv {nL nR : Nat} {futL futR : List (Batch α)} : ∀ (fuel : Nat) 
         rw [← hst] at this
         split
         · simp; exact this
-        · obtain ⟨i1, i2⟩ := ih ({ (select st).1 with start := (feed (select st).1.start b.1 b.2).1, alreadyTimedOut := false }) (acc ++ (feed (select st).1.start b.1 b.2).2) this
+        · obtain ⟨i1, i2⟩ := ih ({ (select ch st).1 with start := (feed (select ch st).1.start b.1 b.2).1, alreadyTimedOut := false }) (acc ++ (feed (select ch st).1.start b.1 b.2).2) this
           simp only
           rw [← List.append_assoc]
           exact ⟨i1, i2⟩
@@ -2586,8 +2591,8 @@ theorem inv_enq_right {nL nR : Nat} {futL futR : List (Batch α)} {acc : List (E
 /-- **the invariant holds along every contract-respecting history** -/
 theorem runFrom_inv {nL nR : Nat} (ops : List (Op α)) : ∀ (st : State α) (i : Nat) (acc : List (Elem (Bin α))),
     Inv nL nR (sentBatches true ops) (sentBatches false ops) st acc →
-    (∃ fl fr, Inv nL nR fl fr (runFrom st i ops).1 (acc ++ (runFrom st i ops).2.1.map (·.2)))
-    ∧ (runFrom st i ops).2.2.1 ≠ .panic := by
+    (∃ fl fr, Inv nL nR fl fr (runFrom ch st i ops).1 (acc ++ (runFrom ch st i ops).2.1.map (·.2)))
+    ∧ (runFrom ch st i ops).2.2.1 ≠ .panic := by
   induction ops with
   | nil => intro st i acc h; simp [runFrom, sentBatches] at h ⊢; exact ⟨[], [], h⟩
   | cons op ops ih =>
@@ -2604,7 +2609,7 @@ theorem runFrom_inv {nL nR : Nat} (ops : List (Op α)) : ∀ (st : State α) (i 
       obtain ⟨p1, p2⟩ := pump_inv (pumpFuel st) st acc h
       split
       · rename_i hoc
-        obtain ⟨i1, i2⟩ := ih (pump (pumpFuel st) st).1 (i + 1) (acc ++ (pump (pumpFuel st) st).2.1) p1
+        obtain ⟨i1, i2⟩ := ih (pump ch (pumpFuel st) st).1 (i + 1) (acc ++ (pump ch (pumpFuel st) st).2.1) p1
         simp only [List.map_append, map_tag]
         rw [← List.append_assoc]
         exact ⟨i1, i2⟩
@@ -2672,9 +2677,9 @@ theorem inv_output {nL nR : Nat} {fl fr : List (Batch α)} {st : State α} {acc 
 /-- the output of a contract-respecting history with the left side cached, in shaped form -/
 theorem run_shaped (nL nR : Nat) (ops : List (Op α)) (hc : contractL nL nR ops = true) :
     ∃ P rs cur, (∀ r ∈ rs, Clean r) ∧ (∀ r ∈ rs, presented true r = P) ∧ (rs ≠ [] → markers P = 1)
-      ∧ (run nL nR true false ops).2 ≠ .panic
-      ∧ (((run nL nR true false ops).1 = joinRounds rs ++ cur ∧ Clean cur ∧ (run nL nR true false ops).2 ≠ .done)
-         ∨ ((run nL nR true false ops).1 = joinRounds rs ++ [Elem.term] ∧ rs ≠ [] ∧ cur = [Elem.term])) := by
+      ∧ (run ch nL nR true false ops).2 ≠ .panic
+      ∧ (((run ch nL nR true false ops).1 = joinRounds rs ++ cur ∧ Clean cur ∧ (run ch nL nR true false ops).2 ≠ .done)
+         ∨ ((run ch nL nR true false ops).1 = joinRounds rs ++ [Elem.term] ∧ rs ≠ [] ∧ cur = [Elem.term])) := by
   obtain ⟨⟨fl, fr, hinv⟩, hnp⟩ := runFrom_inv (nL := nL) (nR := nR) ops (init nL nR true false) 0 [] (inv_init ops hc)
   simp only [List.nil_append] at hinv
   obtain ⟨P, rs, cur, h1, h2, hm, h3⟩ := inv_output hinv
@@ -2682,7 +2687,7 @@ theorem run_shaped (nL nR : Nat) (ops : List (Op α)) (hc : contractL nL nR ops 
   have hn : (init nL nR true false : State α).start.missingTerm ≠ 0 := by
     simp only [contractL, Bool.and_eq_true, decide_eq_true_eq] at hc
     simp [init, Noir.Start.init]; omega
-  have hterm := runFrom_term ops (init nL nR true false) 0 hn
+  have hterm := runFrom_term (ch := ch) ops (init nL nR true false) 0 hn
   rcases h3 with ⟨e1, e2, _⟩ | ⟨e1, e2, e3, _⟩
   · left
     refine ⟨e1, e2, ?_⟩
@@ -2690,7 +2695,7 @@ theorem run_shaped (nL nR : Nat) (ops : List (Op α)) (hc : contractL nL nR ops 
     rcases hterm with ⟨t1, _⟩ | ⟨_, pre, t2, _⟩
     · exact t1
     · exfalso
-      have hmem : Elem.term ∈ (runFrom (init nL nR true false) 0 ops).2.1.map (·.2) := by rw [t2]; simp
+      have hmem : Elem.term ∈ (runFrom ch (init nL nR true false) 0 ops).2.1.map (·.2) := by rw [t2]; simp
       rw [e1] at hmem
       rcases List.mem_append.mp hmem with hm | hm
       · simp only [joinRounds, List.mem_flatMap] at hm
